@@ -146,6 +146,59 @@ Definition visit_arith (c : N) (l : bytes) : vres (list cb * bytes) :=
 Definition prepend (pre : list cb) (r : vres (list cb * bytes)) : vres (list cb * bytes) :=
   match r with VOk (cs, l) => VOk (pre ++ cs, l) | VErr e p => VErr e (pre ++ p) end.
 
+(** the element / member loops, parameterised by the recursive call [rec tag input] *)
+Section Loops.
+Variable rec : bytes -> bytes -> vres (list cb * bytes).
+
+Fixpoint seq_loop (etag : bytes) (n : nat) (l : bytes) (acc : list cb) : vres (list cb * bytes) :=
+  match n with
+  | O => VOk (acc ++ [CSeqEnd], l)
+  | S n' => match rec etag l with
+            | VOk (cs, l') => seq_loop etag n' l' (acc ++ cs)
+            | VErr e p => VErr e (acc ++ p)
+            end
+  end.
+
+Fixpoint tuple_loop (n : nat) (t : bytes) (l : bytes) (acc : list cb) : vres (list cb * bytes) :=
+  match n with
+  | O => VOk (acc ++ [CTupleEnd], l)
+  | S n' => let (e, r) := tag_pop t in
+            match e with
+            | [] => VOk (acc ++ [CTupleEnd], l)
+            | _ => match rec e l with
+                   | VOk (cs, l') => tuple_loop n' r l' (acc ++ cs)
+                   | VErr er p => VErr er (acc ++ p)
+                   end
+            end
+  end.
+
+Fixpoint struct_loop (n : nat) (t : bytes) (l : bytes) (acc : list cb) : vres (list cb * bytes) :=
+  match n with
+  | O => VOk (acc ++ [CStructEnd], l)
+  | S n' => match t with
+            | [] => VOk (acc ++ [CStructEnd], l)
+            | _ => let (fname, t1) := tag_pop_label t in
+                   let (ftag, t2) := tag_pop t1 in
+                   match rec ftag l with
+                   | VOk (cs, l') => struct_loop n' t2 l' (acc ++ [CFieldBegin fname ftag] ++ cs ++ [CFieldEnd])
+                   | VErr e p => VErr e (acc ++ [CFieldBegin fname ftag] ++ p)
+                   end
+            end
+  end.
+End Loops.
+
+Definition enum_callback (inner : bytes) (a : aty) (u : N) (h : bytes) : cb :=
+  (* IntegerToHex visits integral kinds only; for floating kinds the buffer stays empty *)
+  let hexv := match a with AF32 | AF64 | AF80 => [] | ABool => [if le_dec h =? 0 then 48 else 49] | _ => hex_Z (raw_to_Z a (le_dec h)) end in
+  let t := drop 2 inner in
+  let (name, t1) := remove_prefix_before t 39 in
+  let dvalue := [39] ++ hexv ++ [96] in
+  let enumerator := match find_sub t1 dvalue with
+                    | Some p => fst (tag_pop_label (skipn (p + length dvalue - 1) t1))
+                    | None => []
+                    end in
+  CEnum name enumerator u hexv.
+
 (** [fuel] is max_recursion (2048 in visit.hpp) *)
 Fixpoint visit (fuel : nat) (full tag : bytes) (l : bytes) {struct fuel} : vres (list cb * bytes) :=
   match fuel with
@@ -166,43 +219,19 @@ Fixpoint visit (fuel : nat) (full tag : bytes) (l : bytes) {struct fuel} : vres 
           end
         else
           prepend [CSeqBegin size etag]
-            (if (32 <? size) && (match singular f full etag with Some true => true | _ => false end) then
-               match singular f full etag with
-               | None => VErr VRecursion []
-               | _ => match visit f full etag r with
-                      | VOk (cs, r') => VOk ([CRepeatBegin size etag] ++ cs ++ [CRepeatEnd size etag; CSeqEnd], r')
-                      | VErr e p => VErr e (CRepeatBegin size etag :: p)
-                      end
-               end
-             else
-               match (if 32 <? size then singular f full etag else Some false) with
-               | None => VErr VRecursion []
-               | _ =>
-                 (fix loop (n : nat) (l : bytes) (acc : list cb) : vres (list cb * bytes) :=
-                    match n with
-                    | O => VOk (acc ++ [CSeqEnd], l)
-                    | S n' => match visit f full etag l with
-                              | VOk (cs, l') => loop n' l' (acc ++ cs)
-                              | VErr e p => VErr e (acc ++ p)
-                              end
-                    end) (N.to_nat size) r []
-               end)
+            (match (if 32 <? size then singular f full etag else Some false) with
+             | None => VErr VRecursion []
+             | Some true =>
+                 match visit f full etag r with
+                 | VOk (cs, r') => VOk ([CRepeatBegin size etag] ++ cs ++ [CRepeatEnd size etag; CSeqEnd], r')
+                 | VErr e p => VErr e (CRepeatBegin size etag :: p)
+                 end
+             | Some false => seq_loop (visit f full) etag (N.to_nat size) r []
+             end)
       end
     | 40 :: _ =>                                                      (* visit_tuple *)
       let inner := drop_last (drop 1 tag) in
-      prepend [CTupleBegin inner]
-        ((fix loop (n : nat) (t : bytes) (l : bytes) (acc : list cb) : vres (list cb * bytes) :=
-            match n with
-            | O => VOk (acc ++ [CTupleEnd], l)
-            | S n' => let (e, r) := tag_pop t in
-                      match e with
-                      | [] => VOk (acc ++ [CTupleEnd], l)
-                      | _ => match visit f full e l with
-                             | VOk (cs, l') => loop n' r l' (acc ++ cs)
-                             | VErr er p => VErr er (acc ++ p)
-                             end
-                      end
-            end) (S (length inner)) inner l [])
+      prepend [CTupleBegin inner] (tuple_loop (visit f full) (S (length inner)) inner l [])
     | 60 :: _ =>                                                      (* visit_variant *)
       let inner := drop_last (drop 1 tag) in
       match take_n 1 l with
@@ -228,21 +257,7 @@ Fixpoint visit (fuel : nat) (full tag : bytes) (l : bytes) {struct fuel} : vres 
       match struct_special name t l with
       | Some (Some (txt, r)) => VOk ([CSpecial txt], r)
       | Some None => VErr VShort []
-      | None =>
-      prepend [CStructBegin name t]
-        ((fix loop (n : nat) (t : bytes) (l : bytes) (acc : list cb) : vres (list cb * bytes) :=
-            match n with
-            | O => VOk (acc ++ [CStructEnd], l)
-            | S n' => match t with
-                      | [] => VOk (acc ++ [CStructEnd], l)
-                      | _ => let (fname, t1) := tag_pop_label t in
-                             let (ftag, t2) := tag_pop t1 in
-                             match visit f full ftag l with
-                             | VOk (cs, l') => loop n' t2 l' (acc ++ [CFieldBegin fname ftag] ++ cs ++ [CFieldEnd])
-                             | VErr e p => VErr e (acc ++ [CFieldBegin fname ftag] ++ p)
-                             end
-                      end
-            end) (S (length t)) t l [])
+      | None => prepend [CStructBegin name t] (struct_loop (visit f full) (S (length t)) t l [])
       end
     | 47 :: _ =>                                                      (* visit_enum *)
       let inner := drop_last (drop 1 tag) in
@@ -254,17 +269,7 @@ Fixpoint visit (fuel : nat) (full tag : bytes) (l : bytes) {struct fuel} : vres 
         | Some a =>
           match take_n (awidth a) l with
           | None => VErr VShort []
-          | Some (h, r) =>
-            (* IntegerToHex visits integral kinds only; for floating kinds the buffer stays empty *)
-            let hexv := match a with AF32 | AF64 | AF80 => [] | ABool => [if le_dec h =? 0 then 48 else 49] | _ => hex_Z (raw_to_Z a (le_dec h)) end in
-            let t := drop 2 inner in
-            let (name, t1) := remove_prefix_before t 39 in
-            let dvalue := [39] ++ hexv ++ [96] in
-            let enumerator := match find_sub t1 dvalue with
-                              | Some p => fst (tag_pop_label (skipn (p + length dvalue - 1) t1))
-                              | None => []
-                              end in
-            VOk ([CEnum name enumerator u hexv], r)
+          | Some (h, r) => VOk ([enum_callback inner a u h], r)
           end
         end
       end
